@@ -623,6 +623,9 @@ pub struct Config {
     /// C19: index of the base walk this execution belongs to
     pub base_walk: u64,
     pub bias: String,
+    /// C14/C15 only: no cap on locked pages, lengths above the mmap threshold also for locked regions
+    #[serde(default)]
+    pub big: bool,
 }
 
 pub const ARRAY_LENS: [usize; 10] = [0, 1, 16, 32, 64, 4095, 4096, 4097, 8192, 8193];
@@ -1110,7 +1113,10 @@ impl World for MemWorld {
         } else {
             (PlanCfg::None, run)
         };
-        Config { prop: prop.to_string(), rseed: rng.next_u64(), plan, walk_len: 8 + rng.usize_below(23), base_walk: base, bias: prop.to_string() }
+        let rseed = rng.next_u64();
+        let walk_len = 8 + rng.usize_below(23);
+        let big = prop != "C19" && plan == PlanCfg::None && rng.chance(1, 10);
+        Config { prop: prop.to_string(), rseed, plan, walk_len, base_walk: base, bias: prop.to_string(), big }
     }
 
     fn new(cfg: &Config) -> Self {
@@ -1141,7 +1147,8 @@ impl World for MemWorld {
         let live: Vec<usize> = (0..SLOTS).filter(|i| self.slots[*i].is_some()).collect();
         let free: Vec<usize> = (0..SLOTS).filter(|i| self.slots[*i].is_none()).collect();
         let locks_left = self.lock_requests_seen < MAX_LOCK_REQUESTS;
-        let pages_ok = self.locked_pages_model() + 4 <= MAX_LOCKED_PAGES;
+        let big = self.cfg.big;
+        let pages_ok = big || self.locked_pages_model() + 4 <= MAX_LOCKED_PAGES;
         // weights: new, trans, clone, resize, write, read, drop, alloc, dealloc
         let mut w = [0u32; 9];
         if !free.is_empty() {
@@ -1206,7 +1213,7 @@ impl World for MemWorld {
                 let len = match array {
                     Some(n) => n,
                     None if ctor.composite() => 32,
-                    None if ctor == Ctor::Plain && rng.chance(1, 12) => pick_huge(rng),
+                    None if (ctor == Ctor::Plain && rng.chance(1, 12)) || (big && rng.chance(1, 3)) => pick_huge(rng),
                     None => pick_len(rng),
                 };
                 Some(Event::New { slot, ctor, array, len, fill: rng.next_u64() % 1000 })
@@ -1216,7 +1223,7 @@ impl World for MemWorld {
                 let r = self.slots[slot].as_ref().unwrap();
                 let h = r.h.as_ref().unwrap();
                 let mut ts: Vec<Trans> = [Trans::Mlock, Trans::Munlock, Trans::ReadOnly, Trans::ReadWrite, Trans::NoAccess].iter().copied().filter(|t| h.offers(*t)).collect();
-                if !(locks_left && pages_ok) || r.len > 3 * 4096 {
+                if !(locks_left && pages_ok) || (r.len > 3 * 4096 && !big) {
                     ts.retain(|t| *t != Trans::Mlock);
                 }
                 if ts.is_empty() {
@@ -1242,7 +1249,7 @@ impl World for MemWorld {
                     return Some(Event::Read { slot });
                 }
                 let cur = self.slots[slot].as_ref().unwrap().len;
-                let len = match rng.below(if locked { 6 } else { 7 }) {
+                let len = match rng.below(if locked && !big { 6 } else { 7 }) {
                     0 => 0,
                     1 => cur / 2,
                     2 => cur + 1 + rng.usize_below(64),
